@@ -688,9 +688,11 @@ class FormulaMaterializer(metaclass=FormulaMaterializerMeta):
     ) -> dict[str, Any]:
         if not factor.metadata.encoded:
             if factor.expr in self.encoded_cache:
-                encoded = self.encoded_cache[factor.expr]
+                encoded, encoder_state = self.encoded_cache[factor.expr]
             elif (factor.expr, reduced_rank) in self.encoded_cache:
-                encoded = self.encoded_cache[(factor.expr, reduced_rank)]
+                encoded, encoder_state = self.encoded_cache[
+                    (factor.expr, reduced_rank)
+                ]
             else:
 
                 def map_dict(f: Any) -> Any:
@@ -781,8 +783,6 @@ class FormulaMaterializer(metaclass=FormulaMaterializerMeta):
                         raise FactorEncodingError(
                             factor
                         )  # pragma: no cover; it is not currently possible to reach this sentinel
-                spec.encoder_state[factor.expr] = (factor.metadata.kind, encoder_state)
-
                 # Only encode once for encodings where we can just drop a field
                 # later on below.
                 cache_key: Union[str, tuple[str, bool]] = (
@@ -790,7 +790,11 @@ class FormulaMaterializer(metaclass=FormulaMaterializerMeta):
                     if isinstance(encoded, dict) and factor.metadata.drop_field
                     else (factor.expr, reduced_rank)
                 )
-                self.encoded_cache[cache_key] = encoded
+                self.encoded_cache[cache_key] = (encoded, encoder_state)
+
+            # Record the encoder state on every spec that uses this factor (the
+            # encoding itself may have been cached while building another spec).
+            spec.encoder_state[factor.expr] = (factor.metadata.kind, encoder_state)
         else:
             encoded = as_columns(
                 factor.values
